@@ -417,6 +417,8 @@ def expected_u1_states(cfg):
 
 
 def run(tier, seed):
+    import sys
+    sys.setrecursionlimit(max(sys.getrecursionlimit(), 4000))   # degree 501 with a linear-depth scheme
     mods = Mods()
     chk = Check(PID, tier, seed)
     quick = tier == "quick"
@@ -440,18 +442,21 @@ def run(tier, seed):
     if len(cases) != r.distinct or not cases:
         raise tlc.MachineryError("PolyShapes printed %d cases for %d states" % (len(cases), r.distinct))
     rng = random.Random(seed)
-    # thorough: every case three times with growing rationals (heavy O(n^2) operations stay moderate)
-    reps = ["small"] if quick else ["small", "medium", "big"]
+    # thorough: every case with four coefficient magnitudes (the O(n^2) operations stay moderate)
+    reps = ["small"] if quick else ["small", "medium", "big", "int"]
     events, meta = [], []
     for rep, profile in enumerate(reps):
         for case in cases:
             heavy = case[0] in ("multiply", "taylorat", "divmod", "add", "derivative") or case[2] > 40
             prof = profile
             if profile == "big" and heavy:
-                prof = "int"
+                prof = "small"
             dr = Draw(rng, prof)
-            for call in calls_of_case(case, dr):
-                run_call(mods, call, events, meta, case)
+            # thorough: the cheap evaluation cases get three independent draws per magnitude
+            draws = 3 if (not quick and case[0] in ("fast_polynomial", "horner", "rpolynomial", "pow") and case[2] <= 40) else 1
+            for _ in range(draws):
+                for call in calls_of_case(case, dr):
+                    run_call(mods, call, events, meta, case)
     by_fn = {}
     for ev in events:
         k = "%s.%s" % (ev["impl"], ev["fn"])
@@ -523,6 +528,8 @@ def brief(call):
 
 
 def replay(path):
+    import sys
+    sys.setrecursionlimit(max(sys.getrecursionlimit(), 4000))
     mods = Mods()
     with open(path) as f:
         rp = json.load(f)["replay"]
